@@ -36,6 +36,16 @@ def C(n):
 ID = gs.Rule('id', ('pat', r'\w+'), decorators=('name',))
 ID_PLAIN = gs.Rule('id', ('pat', r'\w+'))
 
+# other ways of writing the @name rule: based on another rule, including one, calling one (value: the same string)
+SIGIL = gs.Rule('sigil', ('opt', T('$')))
+WORD = gs.Rule('word', ('pat', r'\w+'))
+NAME_FORMS = {
+    'pattern': ([ID], [ID_PLAIN]),
+    'based': ([SIGIL, gs.Rule('id', ('ovr', ('pat', r'\w+')), base='sigil', decorators=('name',))], [SIGIL, gs.Rule('id', ('ovr', ('pat', r'\w+')), base='sigil')]),
+    'include': ([WORD, gs.Rule('id', ('inc', 'word'), decorators=('name',))], [WORD, gs.Rule('id', ('inc', 'word'))]),
+    'call': ([gs.Rule('id', C('word'), decorators=('name',)), WORD], [gs.Rule('id', C('word')), WORD]),
+}
+
 SHAPES = {
     'bare': [gs.Rule('start', ('seq', C('id'), ('eof',)))],
     'choice-with-keyword': [gs.Rule('start', ('seq', ('alt', ('seq', T('if'), C('id')), C('id')), ('eof',)))],
@@ -112,20 +122,27 @@ def cases():
     for shape in SHAPES:
         for ks in KEYSETS:
             for icmode in ('off', 'directive', 'setting', 'directive-false', 'setting-false', 'directive-true-setting-false'):
-                yield shape, ks, icmode
+                yield shape, ks, icmode, 'pattern'
+    for form in ('based', 'include', 'call'):
+        for shape in SHAPES:
+            for ks in KEYSETS[:2]:
+                for icmode in ('off', 'directive'):
+                    yield shape, ks, icmode, form
 
 
 def shard(m, items, maxwords=3):
     inputs = [' '.join(t) for n in range(0, maxwords + 1) for t in itertools.product(WORDS, repeat=n)]
-    for shape, ks, icmode in items:
+    for shape, ks, icmode, form in items:
         dirs = {'directive': {'ignorecase': True}, 'directive-false': {'ignorecase': False},
                 'directive-true-setting-false': {'ignorecase': True}}.get(icmode, {})
         settings = {'setting': {'ignorecase': True}, 'setting-false': {'ignorecase': False},
                     'directive-true-setting-false': {'ignorecase': False}}.get(icmode, {})
         ic = icmode in ('directive', 'setting')
-        g = gs.Grammar(rules=SHAPES[shape] + [ID], directives=dirs, keywords=ks)
-        gp = gs.Grammar(rules=SHAPES[shape] + [ID_PLAIN], directives=dirs, keywords=ks)
+        g = gs.Grammar(rules=SHAPES[shape] + NAME_FORMS[form][0], directives=dirs, keywords=ks)
+        gp = gs.Grammar(rules=SHAPES[shape] + NAME_FORMS[form][1], directives=dirs, keywords=ks)
         label = gs.render_grammar(g)
+        if form != 'pattern':
+            shape = f'{shape}/{form}-name-rule'
         try:
             model = impl.compile_text(label)
             plain = impl.compile_text(gs.render_grammar(gp))
@@ -193,7 +210,7 @@ def run(rc):
     rc.pmap(shard, cs, chunk=1, maxwords=3 if rc.tier == "quick" else 4)
     rc.pmap(reuse_shard, [(sh, ks) for sh in ('bare', 'closure', 'choice-with-keyword') for ks in KEYSETS[:2] + KEYSETS[3:4]], chunk=1)
     c = rc.total.counts
-    rc.rule = (f'{len(SHAPES)} grammar shapes around an @name rule x {len(KEYSETS)} keyword sets x ignorecase {{off, directive, parse-time setting, explicit False as directive / setting, directive True overridden by setting False}} x all '
+    rc.rule = (f'{len(SHAPES)} grammar shapes around an @name rule (written as a pattern; and, for two keyword sets and ignorecase off/directive, as a based rule, a rule include, a rule call) x {len(KEYSETS)} keyword sets x ignorecase {{off, directive, parse-time setting, explicit False as directive / setting, directive True overridden by setting False}} x all '
                f'word sequences of length <= {3 if rc.tier == "quick" else 4} over {WORDS}; model, generated parser and undecorated grammar; '
                'non-trivial = input containing a keyword (case-folded under ignorecase)')
     rc.coverage.update({'states': c.get('states', 0), 'transitions': c.get('transitions', 0),
